@@ -125,4 +125,32 @@ def verifierScheduleIpa (len : Nat) : List IpaEv :=
   List.replicate len .cG ++ List.replicate len .cG ++ [.cG, .cG, .sq] ++
   (List.replicate (rounds len) [IpaEv.eG, .eG, .sq]).flatten ++ [.eF]
 
+/-- WHAT each transcript operation of the argument carries (the refinement of `IpaEv` by the
+identity of the element): the `i`-th entry of `bases1` / `bases2`, the two claimed values
+(`res1` = the evaluated right-hand side, `res2` = the commitment `σ` to the scalars in the
+aggregator), the batching challenge `r`, per round `j` the pair `L_j`, `R_j` and the challenge
+`u_j`, the final scalar. -/
+inductive IpaLab
+  | base1 (i : Nat) | base2 (i : Nat) | res1 | res2 | chalR | L (j : Nat) | R (j : Nat) | chalU (j : Nat) | finalS
+deriving DecidableEq, Repr, Inhabited
+
+/-- The kind of transcript operation a labelled event is. -/
+def IpaLab.kind : IpaLab → IpaEv
+  | .base1 _ | .base2 _ | .res1 | .res2 => .cG
+  | .chalR | .chalU _ => .sq
+  | .L _ | .R _ => .eG
+  | .finalS => .eF
+
+def IpaLab.tok : IpaLab → String
+  | .base1 i => s!"B1.{i}" | .base2 i => s!"B2.{i}" | .res1 => "RES1" | .res2 => "RES2" | .chalR => "r"
+  | .L j => s!"L.{j}" | .R j => s!"R.{j}" | .chalU j => s!"u.{j}" | .finalS => "s"
+
+/-- The transcript operations of `ipa_prove` / `ipa_verify` with their contents, in the order of
+the code: `bases1.iter().try_for_each(common)`, `bases2…`, `common(res1)`, `common(res2)`,
+`r = squeeze_challenge()`, then per round `write/read(L_j)`, `write/read(R_j)`,
+`u_j = squeeze_challenge()`, then the final scalar. -/
+def labelledSchedule (len : Nat) : List IpaLab :=
+  (List.range len).map .base1 ++ (List.range len).map .base2 ++ [.res1, .res2, .chalR] ++
+  (List.range (rounds len)).flatMap (fun j => [.L j, .R j, .chalU j]) ++ [.finalS]
+
 end MidnightZK.C20
